@@ -119,6 +119,8 @@ struct Sim {
     fx: Fx,
     wins: Vec<Win>,
     price_bps: Vec<u32>,
+    /// `last_restart_slot` the store has acknowledged (role checks fail while it differs from the cluster's).
+    store_restart_slot: u64,
 }
 
 fn floor_mul_div(a: u64, b: u64, c: u64) -> BigUint {
@@ -142,6 +144,10 @@ impl Sim {
         } else {
             None
         }
+    }
+
+    fn restarted(&self) -> bool {
+        self.w.last_restart_slot != self.store_restart_slot
     }
 
     fn cur_index(&self) -> i64 {
@@ -296,11 +302,12 @@ impl Scenario for Buyback {
                 } else if k < 42 {
                     Op::Request { user: g.usize(0, n_users - 1), back: 0, amount: 0 }
                 } else if k < 64 {
-                    let amount = match g.below(10) {
+                    let amount = match g.below(12) {
                         0 => 0,
                         1 => g.log_u64(u64::MAX / 8),
                         2 => g.range(1, 10),
-                        _ => g.log_u64(10u64.pow(13)),
+                        3 | 4 => g.log_u64(10u64.pow(13)),
+                        _ => 10u64.pow(g.range(5, 12) as u32) * g.range(1, 99) + g.range(0, 99_999),
                     };
                     let signer = if faults && g.chance(1, 10) { *g.pick(&[Actor::Admin, Actor::Stranger, Actor::StoreKeeper]) } else { Actor::Keeper };
                     let cpi_fail = if faults && g.chance(1, 12) { g.range(1, 6) as u8 } else { 0 };
@@ -336,16 +343,23 @@ impl Scenario for Buyback {
                 };
                 body.push(op);
             }
+            // most holders do request an exchange at some point of the round
+            for u in 0..n_users {
+                if g.chance(3, 4) {
+                    let at = g.usize(n_users.min(body.len()), body.len());
+                    body.insert(at, Op::Request { user: u, back: 0, amount: 0 });
+                }
+            }
             // resolve request amounts against the running GT model
             for op in body.iter_mut() {
                 match op {
                     Op::MintGt { user, amount } => held[*user] = held[*user].saturating_add(*amount),
                     Op::Request { user, amount, .. } => {
                         let h = held[*user];
-                        let a = match g.below(10) {
+                        let a = match g.below(16) {
                             0 => h.saturating_add(g.range(1, 1000)), // more than held: must fail
                             1 => 0,
-                            2 | 3 => h,
+                            2 | 3 | 4 => h,
                             _ => {
                                 if h == 0 {
                                     0
@@ -513,7 +527,8 @@ impl Scenario for Buyback {
         let fx = Fx::deploy(&mut w, n_tokens, cfg.token_order, n_users, &gt, start_ts);
         let mut price_bps = cfg.price_bps.clone();
         price_bps.resize(n_tokens, 10_000);
-        let mut sim = Sim { w, fx, wins: vec![], price_bps };
+        let store_restart_slot = w.last_restart_slot;
+        let mut sim = Sim { w, fx, wins: vec![], price_bps, store_restart_slot };
         sim.invariants(obs);
 
         for (i, step) in steps.iter().enumerate() {
@@ -622,7 +637,7 @@ fn run_op(sim: &mut Sim, op: &Op, obs: &mut Obs) {
                     || format!("which={which},signer={},accepted={}", actor_name(*signer), out.ok),
                     || format!("factor {factor} > unit {UNIT}: outcome {} factors {:?} -> {:?}", out.class(), pre, post),
                 );
-            } else if *signer == Actor::Admin && *factor != cur {
+            } else if *signer == Actor::Admin && *factor != cur && !sim.restarted() {
                 if *factor == UNIT {
                     obs.probe("factor_exactly_100pct");
                 }
@@ -878,6 +893,9 @@ fn run_op(sim: &mut Sim, op: &Op, obs: &mut Obs) {
         Op::FixRestart => {
             let out = sim.w.process(sim.fx.update_restart_ix());
             obs.outcome("admin", "update_last_restarted_slot", &out.class());
+            if out.ok {
+                sim.store_restart_slot = sim.w.last_restart_slot;
+            }
         }
     }
 }
@@ -932,8 +950,10 @@ fn claim(sim: &mut Sim, back: usize, user: usize, mode: ClaimMode, cpi_fail: u8,
     if !out.ok {
         return;
     }
-    if mode != ClaimMode::Owner {
-        obs.probe("twin_claim_succeeded");
+    match mode {
+        ClaimMode::Owner => {}
+        ClaimMode::StrangerSigner => obs.probe("twin_claim_by_stranger_succeeded"),
+        ClaimMode::WrongTarget => obs.probe("claim_with_foreign_targets_succeeded"),
     }
     let n_users = sim.fx.users.len();
     let win = &mut sim.wins[wi];
